@@ -386,6 +386,9 @@ func (x *g) genObject(depth int, self string) *spec.Type {
 	used := map[string]bool{}
 	for i := 0; i < n; i++ {
 		a := x.genAttr(depth, used, self)
+		if (a.Type.Kind == spec.Array || a.Type.Kind == spec.Map) && a.Val != nil && a.Val.MinLen != nil && *a.Val.MinLen > 0 && elemRefsSelf(a.Type, self) {
+			a.Val.MinLen = nil // a collection of the type under construction that may not be empty has no finite value
+		}
 		t.Attrs = append(t.Attrs, a)
 		if !a.HasDef && x.chance(2, 5) && !refsSelf(a.Type, self) {
 			t.Required = append(t.Required, a.Name)
@@ -846,6 +849,28 @@ func refsSelf(t *spec.Type, self string) bool {
 	case spec.Object:
 		for _, a := range t.Attrs {
 			if t.IsRequired(a.Name) && refsSelf(a.Type, self) {
+				return true
+			}
+		}
+	}
+	return false
+}
+
+// elemRefsSelf reports whether the elements (at any depth) of a collection type refer to the type under construction.
+func elemRefsSelf(t *spec.Type, self string) bool {
+	if self == "" || t == nil {
+		return false
+	}
+	switch t.Kind {
+	case spec.Ref:
+		return t.Ref == self
+	case spec.Array:
+		return elemRefsSelf(t.Elem.Type, self)
+	case spec.Map:
+		return elemRefsSelf(t.Elem.Type, self) || elemRefsSelf(t.Key.Type, self)
+	case spec.Object:
+		for _, a := range t.Attrs {
+			if elemRefsSelf(a.Type, self) {
 				return true
 			}
 		}
